@@ -2,6 +2,7 @@ package main
 
 import (
 	"bytes"
+	"encoding/binary"
 	"encoding/json"
 	"fmt"
 	"math"
@@ -448,6 +449,9 @@ func runC06(r *Run) {
 	nfiles := r.N(12, 200)
 	for i := 0; i < nfiles && !tooSlow(r); i++ {
 		gf := genFile(r, 4)
+		for tries := 0; i%3 == 0 && gf.ct.Codec != "snappy" && tries < 40; tries++ {
+			gf = genFile(r, 4) // every third file is a snappy file (its blocks carry a length preamble of their own)
+		}
 		zw := hasZeroWidthItems(gf.s)
 		// a block of records that occupy zero bytes is the same count-driven loop one level up
 		zwRec := zeroWidth(gf.s)
@@ -461,6 +465,23 @@ func runC06(r *Run) {
 			ms = append(ms, m)
 			m2 := append(append(append([]byte{}, gf.file[:5]...), hv...), gf.file[5:]...) // inside the metadata map
 			ms = append(ms, m2)
+		}
+		if gf.ct.Codec == "snappy" {
+			// a further block whose snappy preamble declares a huge decoded length, behind the
+			// valid blocks (a reader that has decoded one block already has state to get wrong)
+			for _, huge := range []uint64{1 << 28, 1 << 30, 1<<31 - 1, 1<<32 - 1} {
+				raw := binary.AppendUvarint(nil, huge)
+				junk := make([]byte, 9)
+				r.Rng.Read(junk)
+				raw = append(append(raw, junk...), 1, 2, 3, 4)
+				m := append([]byte{}, gf.file...)
+				m = append(m, specVarint(1)...)
+				m = append(m, specVarint(int64(len(raw)))...)
+				m = append(m, raw...)
+				m = append(m, gf.ct.Sync[:]...)
+				ms = append(ms, m)
+				r.Count("file/snappy-preamble-behind-valid-blocks")
+			}
 		}
 		req := mutReq{Type: gf.g, Inputs: ms, Mode: "file"}
 		var res []mutRes
